@@ -13,7 +13,7 @@ RULE = ("random grammars (1-4 non-terminals with shuffled names, 1-4 ordered alt
         "keywords+comments+quoted strings; explicit skip_tokens with COMMENT as a grammar token), both "
         "smart_factorization values; inputs: random derivations, single-token edits of them, random "
         "token strings, rendered with random skipped whitespace/newlines/comments, as str or list of "
-        "lines. Every returned raw tree is validated against the user's productions and the generated "
+        "lines; two inputs per grammar are parsed with another non-terminal as explicit start symbol. Every returned raw tree is validated against the user's productions and the generated "
         "token list; every accepted text must be an Earley-sentence. Non-trivial = the parser "
         "factorized the grammar (suffix symbols exist) and this parse rolled back at least once; "
         "distinct by (grammar, token names).")
@@ -74,12 +74,18 @@ def make_case(rng):
     return cfg_id, terms, prods
 
 
-def judge_parse(ctx, mon, cfg, parser, prods, start, toks, text, expected, smart, as_lines, case):
+def judge_parse(ctx, mon, cfg, parser, prods, start, toks, text, expected, smart, as_lines, case,
+                explicit_start=None):
     """parse one text; returns True/False (accepted?) or None (dropped)"""
     mon.reset()
     mon.stack_bound = None
+    kw = {}
+    if explicit_start is not None:
+        kw["start_symbol_name"] = explicit_start
+        start = explicit_start
+        ctx.count("parses_with_explicit_start_symbol")
     try:
-        tree = parser.parse(text.split("\n") if as_lines else text, do_cleanup=False)
+        tree = parser.parse(text.split("\n") if as_lines else text, do_cleanup=False, **kw)
     except llparser.ParsingError:
         ctx.count("rejected")
         return False
@@ -132,13 +138,23 @@ def run_case(ctx, mon, cfg_id, terms, prods, inputs_spec=None, rng=None):
         for toks in build_inputs(rng, prods, start, terms):
             text, expected = cfg.render(rng, toks, dense=rng.random() < 0.2)
             inputs_spec.append((toks, text, expected, rng.random() < 0.3))
-    for toks, text, expected, as_lines in inputs_spec:
+        # the optional start symbol of parse(): sentences of another non-terminal
+        others = [nt for nt in prods if nt != start]
+        for _ in range(2 if others else 0):
+            nt = rng.choice(others)
+            snt = gram.gen_sentence(prods, rng, nt)
+            if snt is not None:
+                text, expected = cfg.render(rng, snt, dense=rng.random() < 0.2)
+                inputs_spec.append((snt, text, expected, False, nt))
+    for spec_item in inputs_spec:
+        toks, text, expected, as_lines = spec_item[:4]
+        explicit = spec_item[4] if len(spec_item) > 4 else None
         expected = [tuple(x) for x in expected]
         for smart, parser in parsers.items():
             ctx.evaluated()
             case = {"cfg": cfg_id, "terms": terms, "prods": {k: [list(a) for a in v] for k, v in prods.items()},
-                    "inputs": [[toks, text, [list(x) for x in expected], as_lines]]}
-            judge_parse(ctx, mon, cfg, parser, prods, start, toks, text, expected, smart, as_lines, case)
+                    "inputs": [[toks, text, [list(x) for x in expected], as_lines, explicit]]}
+            judge_parse(ctx, mon, cfg, parser, prods, start, toks, text, expected, smart, as_lines, case, explicit)
     return inputs_spec
 
 
